@@ -407,6 +407,8 @@ def plan(ctx):
     sp += [{"kind": "pipe1", "cfg": dict(n_particles=16, d=2, n_total=64, target="errsens", eval=ev, sample=k, env="over-raise", clustering=cl), "base": ctx.seed + b}
            for ev in ("scalar", "blobs", "vec") for k in ("tpcn", "rwm") for cl in (False, True) for b in ((0, 3) if th else (0,))]
     ctx.explore("exact-ties-and-error-state", sp)
+    from mc.pipeline import LARGE
+    ctx.explore("large-scopes", [{"kind": "pipe1", "cfg": c, "base": ctx.seed + b} for c in LARGE for b in ((0, 4) if th else (0,))])
     from mc import session as _s2
     ctx.explore("resume-with-other-options", [{"kind": "cross", "cfg": dict(n_particles=16, d=2, n_total=48, eval="scalar", clustering=False), "pair": list(pr), "base": ctx.seed + b} for pr in _s2.CROSS for b in ((0, 5) if th else (0,))])
     ctx.bounds.update({"session": {"alphabet": ["S (iterate)", "V0/V1 (save_state to slot)", "L0/L1 (load_state from slot)"], "depth": "all sequences to depth 7 (thorough) / 5 (quick) + 57 longer save/branch/roll-back patterns (length <= 9)", "warm_iterations": 3}})
